@@ -484,6 +484,17 @@ def _error_decl_mode(db, b, t):
     se = inline.inlined(db, se, pol)
     decls = {bi for bi, ct in se.calls() if short(callee_def(ct)) == "decl" and "xml::ser::Serializer" in callee_def(ct)}
     sers = {bi for bi, ct in se.calls() if short(callee_def(ct)) in ("serialize", "serialize_content") and "xml::ser" in callee_def(ct)}
+    # the serializer calls may sit in a closure built on the arm (`serialize_xml_to_vec(cap, |ser| ser.decl().and_then(..))`)
+    for bi, si, st in se.stmts():
+        rv = st["rv"]
+        if rv["k"] == "agg" and rv.get("agg") == "closure":
+            cb = db.body(rv.get("def", ""))
+            for x in (db.nested(cb) if cb is not None else []):
+                for _, ct in x.calls():
+                    if short(callee_def(ct)) == "decl" and "xml::ser::Serializer" in callee_def(ct):
+                        decls.add(bi)
+                    if short(callee_def(ct)) in ("serialize", "serialize_content") and "xml::ser" in callee_def(ct):
+                        sers.add(bi)
     out = None
     for sb in se.live_blocks():
         st = se.blocks[sb]["term"]
@@ -512,11 +523,12 @@ def _error_decl_mode(db, b, t):
                 target = st["otherwise"]
         if target is None:
             continue
+        dead = frozenset(paths.const_dead_edges(se))       # arms of `match mode` in an inlined helper that its literal argument does not select
         others = set()
         for lab, tb in se.succ_edges(sb):
             if tb != target:
-                others |= flow.reach(se, [tb], stop_blocks=frozenset([sb]))
-        mine = flow.reach(se, [target], stop_blocks=frozenset([sb]))
+                others |= flow.reach(se, [tb], removed=dead, stop_blocks=frozenset([sb]))
+        mine = flow.reach(se, [target], removed=dead, stop_blocks=frozenset([sb]))
         only_mine = mine - others
         if decls & only_mine:
             out = "decl"
